@@ -31,40 +31,27 @@ def scratch(tag):
     for sub in ("src", "include", "Makefile"):
         s = os.path.join("/repo", sub)
         (shutil.copytree if os.path.isdir(s) else shutil.copy)(s, os.path.join(d, sub))
+    os.makedirs(os.path.join(d, "build", "test"), exist_ok=True)
+    os.makedirs(os.path.join(d, "build", "benches"), exist_ok=True)
     return d
 
 
 def run_demo(src_dir, tree):
-    """Build and run the demo against `tree`. Returns (exit code, output tail)."""
-    work = os.path.join(tree, "_demo")
-    shutil.rmtree(work, ignore_errors=True)
-    shutil.copytree(src_dir, work, ignore=shutil.ignore_patterns("patch.diff"))
-    build = os.path.join(work, "build.sh")
-    if os.path.exists(build):
-        # build.sh is written relative to the repository root with the demo in SEEDED/X; normalise both
-        txt = open(build).read()
-        rc, out = sh(f"cd {tree} && DEMO_DIR=_demo bash _demo/build.sh", timeout=300)
+    """Build and run the demo against `tree` (build.sh convention: it lives in <root>/SEEDED/X and builds ./demo there).
+    Returns (exit code, output tail); 99 = could not build."""
+    work = os.path.join(tree, "SEEDED", "X")
+    shutil.rmtree(os.path.join(tree, "SEEDED"), ignore_errors=True)
+    shutil.copytree(src_dir, work, ignore=shutil.ignore_patterns("demo", "*.o", "meta.json"))
+    if os.path.exists(os.path.join(work, "build.sh")):
+        rc, out = sh(["sh", os.path.join(work, "build.sh")], cwd=tree, timeout=300)
     else:
-        rc, out = 1, "no build.sh"
-    exe = None
-    for cand in ("demo", "_demo/demo", "_demo/a.out", "a.out"):
-        if os.path.exists(os.path.join(tree, cand)):
-            exe = os.path.join(tree, cand); break
-    if exe is None:
-        # generic build
         libs = [f for f in glob.glob(os.path.join(tree, "src", "*.c")) if os.path.basename(f) not in ("check.c", "_string.c")]
-        uses_hash = "hash.h" in open(os.path.join(work, "demo.c")).read()
-        cmd = ["gcc", "-std=gnu11", "-O1", "-g", "-I", os.path.join(tree, "include"), "-D_POSIX_C_SOURCE=199309L"]
-        objs = []
-        rc, out = sh(cmd + (["-Dcstl_hash_size=demo_hash_size", "-Dcstl_hash_load=demo_hash_load"] if uses_hash else [])
-                     + ["-c", os.path.join(work, "demo.c"), "-o", os.path.join(work, "demo.o")])
-        if rc != 0:
-            return 99, "demo build failed: " + out[-800:]
-        rc, out = sh(cmd + [os.path.join(work, "demo.o")] + libs + ["-lm", "-lpthread", "-o", os.path.join(work, "demo")])
-        if rc != 0:
-            return 99, "demo link failed: " + out[-800:]
-        exe = os.path.join(work, "demo")
-    rc, out = sh(f"cd {tree} && timeout 120 {exe}", timeout=200)
+        rc, out = sh(["gcc", "-std=gnu11", "-O1", "-g", "-I", os.path.join(tree, "include"), "-D_POSIX_C_SOURCE=199309L",
+                      os.path.join(work, "demo.c")] + libs + ["-lm", "-lpthread", "-o", os.path.join(work, "demo")])
+    exe = os.path.join(work, "demo")
+    if rc != 0 or not os.path.exists(exe):
+        return 99, "demo build failed: " + out[-800:]
+    rc, out = sh(f"timeout 300 {exe}", cwd=tree, timeout=400)
     return rc, out[-600:]
 
 
